@@ -1,51 +1,83 @@
 /-
   C03 — concurrent Insert/Update/Delete/Search are linearizable.
 
-  Model: Conc.lean (small-step, lock-acquisition granularity).  Status: the FULL
-  statement is kept below as a definition (`C03_linearizable_statement`) and is NOT yet
-  proved in Lean; it is decided on the implementation side by the linearizability
-  checker over all schedules of a catalogue and tens of thousands of random schedules,
-  and the model is tied to the code by the event-log replay.  Proved here: the
-  sequential specialisation (every single-threaded history refines the map: C01), and
-  the facts about the model that the linearisation-point argument rests on: a Search
-  never modifies the tree under any schedule, and every thread's held locks are those
-  of its program position (C09/C10).
+  Model: Conc.lean (small-step, lock-acquisition granularity), tied to the code by the
+  event-log replay of every shadow run.
+
+  PROVED so far (`C03_linearizable_nodelete_partial`): for every key type and strict weak
+  order, every initial tree satisfying the structural and the ordering invariant (in
+  particular a fresh tree), every finite family of client programs WITHOUT Delete that respect
+  the cursor discipline (Insert, Update, Search, and cursor sessions alongside), EVERY number
+  of threads and EVERY schedule: the history of invocations and responses recorded in the log
+  (`history c`: an Update's response carries the argument its callback received) is
+  linearizable in the sense of Herlihy and Wing with respect to the map specification
+  `Spec` — `Lin.Linearizable`: some total order of all completed and some pending operations
+  respects real time and replays on `Spec` to exactly the responses observed.
+  Method: the key-order invariant `KInv` (ordering `Ord`; every reader is ON the search path
+  of its key, every writer additionally inside the interval of the node it holds) is
+  inductive on top of the structural invariant (`step_kinv_nodel`); structural blocks
+  (splits, first-separator lowering) leave the abstract map unchanged and leaf blocks are
+  `Spec` operations on the leaf that is authoritative for the key (`resume_kpost_U`); every
+  map operation takes effect in the step in which it returns (`CLin.lean`); a history
+  decorated with such linearization points is linearizable (`LinPoints.lean`, generic).
+  The FULL statement with Delete (`C03_linearizable_statement`) additionally needs the
+  separator invariant `ISep` (stage C, in progress); it is decided on the implementation
+  side by the linearizability checker over all schedules of a catalogue and thousands of
+  random schedules.
 -/
 import Gobptree.Proofs.ConcReach
 import Gobptree.Run
+import Gobptree.Proofs.CFinal
 
 namespace Gobptree.Conc
 open Gobptree
 
 variable {K V : Type}
 
-/-! ### histories and linearizability (Herlihy–Wing) -/
+/-! ### linearizability (Herlihy–Wing); definitions in `Proofs/LinPoints.lean` (`Lin.HEv`,
+    `Lin.opsOf`, `Lin.IsLinearization`, `Lin.Linearizable`) and `Proofs/CLDefs.lean` (`history`) -/
 
-/-- a completed point operation extracted from the log: thread, index, the operation, its
-    result, positions of invocation and response in the chronological log -/
-structure HOp (K V : Type) where
-  tid : Nat
-  idx : Nat
-  op  : Op K V
-  out : Out V
-  inv : Nat
-  ret : Nat
+/-- FULL statement (with Delete; not yet a theorem) -/
+def C03_linearizable_statement : Prop :=
+  ∀ (lt : Nat → Nat → Bool) (P : Params Nat) (tree : Tree Nat Nat) (progs : List (List (COp Nat Nat))) (c : Config Nat Nat),
+    KParams lt P → TreeOk none tree → OrdTree lt tree → tree.order = P.order → PadOk P → Disciplined progs →
+    Reachable (Config.init P tree progs) c → Lin.Linearizable lt tree.abs (history c)
 
-/-- a total order of the operations is a linearisation if it respects real time and is a
-    legal sequential history of the map specification from the initial contents -/
-def IsLinearization (lt : K → K → Bool) (init : List (K × V)) (ops : List (HOp K V)) (ord : List (HOp K V)) : Prop :=
-  List.Perm ops ord ∧
-  (∀ i j (hi : i < ord.length) (hj : j < ord.length), ord[i].ret < ord[j].inv → i < j) ∧
-  (Spec.run lt init (ord.map (·.op))).2 = ord.map (·.out)
+/-- **C03 (programs without Delete): linearizable under every schedule.** -/
+theorem C03_linearizable_nodelete_partial (lt : K → K → Bool) (P : Params K) (tree : Tree K V)
+    (progs : List (List (COp K V)))
+    (hkp : KParams lt P) (ht : TreeOk none tree) (hord : OrdTree lt tree) (ho : tree.order = P.order)
+    (hp : PadOk P) (hd : Disciplined progs) (hnd : NoDelete progs)
+    (c : Config K V) (hr : Reachable (Config.init P tree progs) c) :
+    Lin.Linearizable lt tree.abs (history c) :=
+  linearizable_nodelete' lt P tree progs hkp ht hord ho hp hd hnd c hr
 
-/-- FULL statement (not proved): for every order ≥ 4, initial tree satisfying the
-    invariant, program family of point operations and schedule, the completed operations
-    of the history have a linearisation. `history` extracts the `HOp`s from the log. -/
-def C03_linearizable_statement (history : Config Nat Nat → List (HOp Nat Nat)) : Prop :=
-  ∀ (P : Params Nat) (tree : Tree Nat Nat) (progs : List (List (COp Nat Nat))) (c : Config Nat Nat),
-    4 ≤ P.order → P.order % 2 = 0 → tree.order = P.order →
-    Reachable (Config.init P tree progs) c → c.dead = false →
-    ∃ ord, IsLinearization P.lt tree.abs (history c) ord
+/-- **C03 (programs without Delete): the ordering invariant holds in every reachable
+    configuration** — keys ascending in every node, every subtree inside the interval its
+    parent's separators assign to it — together with every thread's position on the search
+    path of its key. -/
+theorem C03_key_order_invariant_partial (lt : K → K → Bool) (P : Params K) (tree : Tree K V)
+    (progs : List (List (COp K V)))
+    (hkp : KParams lt P) (ht : TreeOk none tree) (hord : OrdTree lt tree) (ho : tree.order = P.order)
+    (hp : PadOk P) (hd : Disciplined progs) (hnd : NoDelete progs)
+    (c : Config K V) (hr : Reachable (Config.init P tree progs) c) : KInv lt c :=
+  reachable_kinv lt P tree progs hkp ht hord ho hp hd hnd c hr
+
+/-- the hypotheses are satisfiable: a fresh tree of order 4 over `Nat` with `<`, and two
+    threads inserting, updating and searching -/
+example : KParams (fun a b : Nat => decide (a < b)) (Params.mk (fun a b => decide (a < b)) (fun _ => some 0) 4) ∧
+    TreeOk none (Tree.new 4 : Tree Nat Nat) ∧ OrdTree (fun a b : Nat => decide (a < b)) (Tree.new 4 : Tree Nat Nat) ∧
+    PadOk (Params.mk (fun a b : Nat => decide (a < b)) (fun _ => some 0) 4) ∧
+    Disciplined [[COp.ins 1 1, COp.upd 1 (fun _ => 2) false], [COp.get (K := Nat) (V := Nat) 1]] ∧
+    NoDelete [[COp.ins 1 1, COp.upd 1 (fun _ => 2) false], [COp.get (K := Nat) (V := Nat) 1]] := by
+  refine ⟨⟨⟨?_, ?_, ?_⟩, rfl⟩, new_treeOk 4 (by omega) (by omega), ?_, ?_, ?_, ?_⟩
+  · intro a; simp
+  · intro a b c h1 h2; simp at *; omega
+  · intro a b c h1; simp at *; omega
+  · exact ⟨List.Pairwise.nil, fun k hk => by cases hk⟩
+  · intro k h; simp at h
+  · intro p hp; simp at hp; rcases hp with rfl | rfl <;> rfl
+  · intro p hp op hop; simp at hp; rcases hp with rfl | rfl <;> simp at hop <;> rcases hop with rfl | rfl <;> rfl
 
 /-! ### proved: Search is read-only under every schedule -/
 
@@ -77,3 +109,5 @@ theorem C03_search_readonly_partial (P : Params K) (t : Nat) (s : St K V) (sc : 
 end Gobptree.Conc
 
 #print axioms Gobptree.Conc.C03_search_readonly_partial
+#print axioms Gobptree.Conc.C03_linearizable_nodelete_partial
+#print axioms Gobptree.Conc.C03_key_order_invariant_partial
